@@ -21,10 +21,10 @@ type ctor struct {
 	name     string // "tg.TextBold"
 	typ      reflect.Type
 	newObj   func() bin.Object
-	optional map[string]bool // Go field name -> conditional (flag-guarded) field
+	optional map[string]bool   // Go field name -> conditional (flag-guarded) field
 	group    map[string]string // conditional field -> "flagsFieldIndex:bit" (fields sharing a bit are present together)
-	flagsAt0 bool            // first field is a bin.Fields word (flags directly after the id)
-	generic  []int           // indices of fields of type bin.Object (generic !X)
+	flagsAt0 bool              // first field is a bin.Fields word (flags directly after the id)
+	generic  []int             // indices of fields of type bin.Object (generic !X)
 	minDepth int
 }
 
